@@ -148,6 +148,7 @@ class RunClass(Run):
         self.tc = seams.import_sut_torch() if cfg["sampler"].startswith("t:") else None
         self.n = cfg["n"]
         self.count = 0
+        self.seeded = False
         self.aux = None
         self.distinct = set()
         s = cfg["sampler"]
@@ -176,8 +177,10 @@ class RunClass(Run):
     def apply(self, op):
         cfg = self.cfg
         s, n = cfg["sampler"], self.n
-        if op.get("reseed", True):
+        if op.get("reseed", True) or not self.seeded:
+            # (a stream whose first draws were removed by the shrinker starts at this op)
             seams.seed_all(op["entropy"])
+            self.seeded = True
             self.stats["reseed"] += 1
         else:
             self.stats["stream_draw"] += 1
